@@ -47,7 +47,7 @@ def shrink(binp, work, case_lines, key):
             i -= 1
     return header + ops
 
-def run_seq(ctx, profile, cases, model=None, keys_of_interest=None, seed_offset=0, tag=None, corpus=None):
+def run_seq(ctx, profile, cases, model=None, keys_of_interest=None, seed_offset=0, tag=None, corpus=None, gen_extra=()):
     """returns a Tie. model: name of the svdriver model whose protocol matches this profile."""
     tag = tag or profile
     t = Tie('seq-' + tag)
@@ -57,7 +57,7 @@ def run_seq(ctx, profile, cases, model=None, keys_of_interest=None, seed_offset=
     binp = ctx.cargo_bin('seq')
     ops = os.path.join(ctx.work, 'seq-%s.ops' % tag)
     imp = os.path.join(ctx.work, 'seq-%s.impl' % tag)
-    rc, out, _ = sh([binp, 'gen', '--profile', profile, '--seed', str(ctx.seed + seed_offset), '--cases', str(cases), '--out', ops])
+    rc, out, _ = sh([binp, 'gen', '--profile', profile, '--seed', str(ctx.seed + seed_offset), '--cases', str(cases), '--out', ops] + list(gen_extra))
     m = re.search(r'GEN cases=(\d+) distinct=(\d+)', out)
     if rc != 0 or not m:
         raise HarnessError('seq gen failed: ' + out[-500:])
